@@ -51,6 +51,8 @@ type RecStorage struct {
 	// NidEmptyOK: an unknown node id is answered with an empty set and no error (as a database-backed
 	// store might) instead of ErrNotFound
 	NidEmptyOK bool
+	// NativeNid: when the inner back end implements NodeIdLoader, use its lookup instead of the harness' scan
+	NativeNid bool
 	// FailOp/FailType, when FailOp is set: the next operation of that name (and, when FailType is set, on that
 	// message type) fails with Fail; one shot
 	FailOp   string
@@ -265,6 +267,12 @@ func (r *RecStorage) LoadByNodeId(ctx context.Context, m nodeenrollment.MessageW
 	if ferr != nil {
 		r.end(rec, ferr)
 		return ferr
+	}
+	// a back end that looks records up by node id itself (the store-once test back end): use ITS lookup
+	if native, ok := r.inner.(nodeenrollment.NodeIdLoader); ok && r.NativeNid {
+		err := native.LoadByNodeId(ctx, m)
+		r.end(rec, err)
+		return err
 	}
 	set, ok := m.(*types.NodeInformationSet)
 	if !ok {
